@@ -375,3 +375,6 @@ def replay_cli_equiv(rp):
 
 
 REPLAY = {"cli": replay_cli, "cli-equiv": replay_cli_equiv}
+
+from suites import thorough as _th
+GROUPS["thorough:cli-equivalence"] = _th.bounded_from_replay("bounded/cli-vs-api", replay_cli_equiv)
